@@ -48,6 +48,14 @@ CHECKS = {
          "DESIGN.md §3 C11",
          "Every serialized payload length 0..=max+64 (thorough; quick: every 61st plus all boundary regions) for all four shredders with and without parent is shredded and restored from each subset of the family (>=32: slice and all 64 shreds identical to the leader's and valid under the signed root; <32: NotEnoughShreds); oversize slices are refused; on every error path (too few shreds, shreds of another shredder, shreds mixed from two signed slices) the supplied array must be unchanged.",
          "2^64 subsets are not enumerable: the subset family targets the code's index bookkeeping (windows, low/high splits, prefixes, single missing, cyclic runs); MDS property of reed-solomon-simd is trusted."),
+ "C12": ("exploration", "exhaustive enumeration of a structured mutation menu of genuine shreds x cached-commitment states through the real decoder and ValidatedShred::try_new, passing mutants replayed into a real blockstore, conflicting signed slices in both orders", "E3",
+         "DESIGN.md §3 C12",
+         "Every mutation of the menu (slot, slice index, last flag, shred index to each other position, one flipped bit per payload byte, payload length, each proof element flipped/dropped/swapped, proof lengths 0..33, signature bytes, foreign signature, type tag) of base shreds at both ends and at the data/coding boundary is validated with no / the identical / a conflicting validly signed / a foreign cached commitment: only unaltered commitments may pass, a conflicting signed commitment must give Equivocation, the cache must never turn a reject into an accept; every mutant that passes validation is fed at four positions among genuine shreds into a real blockstore and must neither get the correct leader flagged nor prevent reconstruction; conflicting signed slices (different data, same root with different last flag) must be reported by the blockstore in both arrival orders.",
+         "A mutant byte-equal to another genuine shred of the leader (identical padding shreds) is genuine; signature-only mutants are allowed to pass when the cached commitment is identical (the statement allows that shortcut)."),
+ "C13": ("model_checking", "explicit-state BFS over all interleavings of per-slice delivery stages, re-deliveries and alternative signed shreds on a real BlockstoreImpl, reference = the leader's signed block", "E2",
+         "DESIGN.md §3 C13",
+         "For every block shape (1-3 slices, thorough 4; empty to full slices; optimistic handover) every interleaving across slices of the delivery stages 0/1/31/32/33/40 shreds (three index orders), one re-delivery per slice and each alternative signed shred placed anywhere is executed: exactly one FirstShred; for clean histories exactly one Block in the step the last needed shred arrives, with the double-Merkle hash, the leader's parent (in an earlier slot) and transactions, after which every shred / slice root / double-Merkle proof is served byte-exactly; once a contradiction is revealed (conflicting slice, contradictory last markers in any order) exactly one InvalidBlock and never a Block afterwards; consistently signed malformed blocks (undecodable data, no parent, two switches, switch to itself, parent in the same or a later slot) give InvalidBlock and no Block; the leader's add_own_slice path stores the same block and shreds as a follower.",
+         "Delivery within a slice is staged (1, 31, 32, 33, 40 shreds) rather than shred-by-shred; subsets of shreds are C11's subject."),
 }
 
 NOT_YET = {}
